@@ -36,7 +36,7 @@ import (
 
 type Scenario struct {
 	Transport  string `json:"transport"` // udp | tcp
-	Op         string `json:"op"`        // get | post-bw | post-big | observe | cancelobs | ping | write-con | write-non
+	Op         string `json:"op"`        // get | post-bw | post-big | observe | cancelobs | ping | write-con | write-non | write-con-bw | write-non-bw (one-way, body of several blocks)
 	Peer       string `json:"peer"`      // silent | ack | garbage | blocks | stall | close
 	Blocks     int    `json:"blocks"`
 	Interrupt  string `json:"interrupt"` // cancel | deadline | close | peerclose
@@ -97,7 +97,7 @@ func Exec(t *testing.T, sc Scenario, r *evid.Run) *evid.Failure {
 		if sc.Queued == "nstart" || sc.Wrapped {
 			nstart = 1
 		}
-		bwOn := sc.Op == "post-bw"
+		bwOn := sc.Op == "post-bw" || sc.Op == "write-con-bw" || sc.Op == "write-non-bw"
 		if sc.Transport == "udp" {
 			link := memnet.NewPacketLink(memnet.LinkCfg{LatencyMs: 1})
 			c, stop, errRole := roles.Packet(sc.Role, link, bubble.Wait, []any{
@@ -337,16 +337,22 @@ func Exec(t *testing.T, sc Scenario, r *evid.Run) *evid.Failure {
 				opErr = cbErr
 			case "ping":
 				opErr = cc.Ping(ctx)
-			case "write-con", "write-non":
+			case "write-con", "write-non", "write-con-bw", "write-non-bw":
 				m := cc.AcquireMessage(ctx)
 				m.SetCode(codes.POST)
 				m.SetToken([]byte{0xA9, 3})
 				m.MustSetPath("/x")
 				m.SetType(message.NonConfirmable)
-				if sc.Op == "write-con" {
+				if sc.Op == "write-con" || sc.Op == "write-con-bw" {
 					m.SetType(message.Confirmable)
 				}
 				m.SetBody(bytes.NewReader([]byte("w")))
+				if bwOn {
+					// a one-way message whose body needs several blocks: the first block goes out with
+					// this call, under this call's context
+					m.SetContentFormat(message.AppOctets)
+					m.SetBody(bytes.NewReader(bytes.Repeat([]byte{0x5b}, 300)))
+				}
 				opErr = cc.WriteMessage(m)
 			}
 		}()
@@ -542,7 +548,7 @@ func Exec(t *testing.T, sc Scenario, r *evid.Run) *evid.Failure {
 func gen(t *rapid.T) Scenario {
 	sc := Scenario{
 		Transport:     rapid.SampledFrom([]string{"udp", "tcp"}).Draw(t, "transport"),
-		Op:            rapid.SampledFrom([]string{"get", "post-bw", "post-big", "observe", "cancelobs", "cancelobs-cb", "ping", "write-con", "write-non"}).Draw(t, "op"),
+		Op:            rapid.SampledFrom([]string{"get", "post-bw", "post-big", "observe", "cancelobs", "cancelobs-cb", "ping", "write-con", "write-non", "write-con-bw", "write-non-bw"}).Draw(t, "op"),
 		Interrupt:     rapid.SampledFrom([]string{"cancel", "deadline", "close", "peerclose"}).Draw(t, "interrupt"),
 		Pre:           rapid.IntRange(0, 5).Draw(t, "pre") == 0,
 		Queued:        rapid.SampledFrom([]string{"", "", "", "limiter", "nstart"}).Draw(t, "queued"),
@@ -592,7 +598,7 @@ func TestCheck(t *testing.T) {
 	engines = append(engines, realEngine())
 	engines = append(engines, udpsrv.Engine(r, []string{"closed"}, 8, 200))
 	r.Main(evid.Meta{
-		Rule:        "interrupt: a client connection (datagram / stream) in a synctest bubble runs one blocking operation (GET, block-wise POST, large POST, observe registration, observation cancel (from the application's goroutine and from inside the observe callback), ping, confirmable / non-confirmable one-way write), optionally queued behind the parallel-request limiter or NSTART, against a scripted peer (silent, ACK only, unrelated traffic, first j blocks then silence, stops reading, closes); quiescence establishes that the call is blocked; then the interruption (context cancel, context deadline, local Close from 1-4 goroutines, peer close), before or during the call; after 5 virtual seconds and one housekeeping tick the call must have returned with an error; then Close (twice, concurrently): returns, done signal closed, every on-close callback ran exactly once (the first one registers 0-3 further callbacks while it runs, which must not disturb the others), other calls on the connection ended, no library goroutine left blocked. servers: tcp and dtls servers on in-memory listeners with clients in flight, Stop from several goroutines, Serve returns. real: GET / observe registration against a handler that never answers, and Server.Discover against a silent peer, over UDP, DTLS-PSK, TCP and TLS loopback sockets with the library's own servers and Dial clients, interrupted by cancel, deadline, Close from 1-4 goroutines or server Stop; 5 real seconds of allowance; a failure counts only if it reproduces three times in a row. " + udpsrv.Rule + ". Non-trivial = the call was really blocked at the interruption (class block/really-blocked); all scenarios are distinct by construction of the key",
+		Rule:        "interrupt: a client connection (datagram / stream) in a synctest bubble runs one blocking operation (GET, block-wise POST, large POST, observe registration, observation cancel (from the application's goroutine and from inside the observe callback), ping, confirmable / non-confirmable one-way write with a small body or one that needs several blocks), optionally queued behind the parallel-request limiter or NSTART, against a scripted peer (silent, ACK only, unrelated traffic, first j blocks then silence, stops reading, closes); quiescence establishes that the call is blocked; then the interruption (context cancel, context deadline, local Close from 1-4 goroutines, peer close), before or during the call; after 5 virtual seconds and one housekeeping tick the call must have returned with an error; then Close (twice, concurrently): returns, done signal closed, every on-close callback ran exactly once (the first one registers 0-3 further callbacks while it runs, which must not disturb the others), other calls on the connection ended, no library goroutine left blocked. servers: tcp and dtls servers on in-memory listeners with clients in flight, Stop from several goroutines, Serve returns. real: GET / observe registration against a handler that never answers, and Server.Discover against a silent peer, over UDP, DTLS-PSK, TCP and TLS loopback sockets with the library's own servers and Dial clients, interrupted by cancel, deadline, Close from 1-4 goroutines or server Stop; 5 real seconds of allowance; a failure counts only if it reproduces three times in a row. " + udpsrv.Rule + ". Non-trivial = the call was really blocked at the interruption (class block/really-blocked); all scenarios are distinct by construction of the key",
 		Assumptions: []string{"connections built over a caller-owned socket without WithCloseSocket are out of domain", "write stalls are generated with a socket-like bounded buffer, not a zero-buffer pipe"},
 		Floor:       300,
 	}, engines...)
